@@ -483,7 +483,7 @@ def l_exhaustive(cont_only=False, level=0):
 PROBES = [2.0 ** -20, -2.0 ** -20, 2.0 ** -18, -2.0 ** -18, 2.0 ** -10, -2.0 ** -10, 2.0 ** -34, -2.0 ** -34]
 
 
-def l_seeded(seed, n, cont_only=False, maxn=3, maxm=3, coefs=None, rhss=None, named=False, tiny=False, offsets=False, satisfy=False, probe=()):
+def l_seeded(seed, n, cont_only=False, maxn=3, maxm=3, coefs=None, rhss=None, named=False, tiny=False, offsets=False, satisfy=False, probe=(), strict=False):
     """probe: fields ('coef', 'rhs', 'obj', 'off') that receive a tolerance-probe value with probability 5%"""
     r = random.Random(seed)
     pr = random.Random(seed * 7919 + 1)
@@ -511,7 +511,7 @@ def l_seeded(seed, n, cont_only=False, maxn=3, maxm=3, coefs=None, rhss=None, na
                 a = list(rows[-1][0])  # duplicate / parallel row
             else:
                 a = [P('coef', r.choice(coefs)) for _ in range(nv)]
-            rows.append((a, r.choice(['<=', '>=', '=', '<=', '>=']), P('rhs', r.choice(rhss))))
+            rows.append((a, r.choice(['<=', '>=', '=', '<=', '>='] + (['<', '>'] if strict else [])), P('rhs', r.choice(rhss))))
         obj = [P('obj', r.choice([0, 1, -1, 2, -2, 0.5, 3])) for _ in range(nv)]
         dirs = ['min', 'max'] + (['solve'] if satisfy else [])
         names = None
